@@ -22,6 +22,35 @@ func init() {
 	gens["c05-alltypes"] = c05AllTypes
 	gens["c05-golden"] = c05Golden
 	gens["c05-typenames"] = c05TypeNames
+	gens["c05-long"] = c05Long
+}
+
+// c05Long: LONG values - fixed-size buffers and limits inside the parser sit far above the
+// token alphabet (sun_path is 108 bytes, sockaddr_storage 128, PATH_MAX 4096, a record 8970).
+func c05Long(c *enumx.Ctx) {
+	lens := []int{60, 100, 106, 107, 108, 109, 110, 111, 126, 127, 128, 129, 255, 256, 257, 1023, 1024, 1025, 4095, 4096, 4097, 8969, 8970, 8971, 65535, 65536, 70000}
+	if c.Tier == "thorough" {
+		for n := 1; n <= 600; n++ {
+			lens = append(lens, n)
+		}
+		lens = append(lens, 1<<20)
+	}
+	fills := []string{"41", "00", "FF", "2F", "A", "a", "0", "\"", "'", " ", "=", ",", "\\"}
+	prefixes := []string{"saddr=0100", "saddr=0200", "saddr=0A00", "saddr=1000", "saddr=0100002F", "saddr=", "proctitle=", "exe=", "cwd=", "name=", "cmd=", "data=", "acct=", "key=", "subj=", "argc=1 a0=", "argc=", "arch=", "syscall=", "exit=-", "sig=", "msg='a=", "a=\"", "x"}
+	for _, n := range lens {
+		for _, f := range fills {
+			val := strings.Repeat(f, (n+len(f)-1)/len(f))[:n]
+			for _, p := range prefixes {
+				for _, t := range []uint16{1306, 1327, 1300, 1309, 1123, 1319, 1302, 1112, 1400, 1307} {
+					if !c.Mine() {
+						continue
+					}
+					parseBody(c, t, "audit(1700000000.123:42): "+p+val+" z=1")
+				}
+			}
+		}
+	}
+	c.Sample("Parse(1306, \"audit(...): saddr=0100\" + 222 hex digits) : a unix path longer than sun_path")
 }
 
 // c05TypeNames: every sequence of <=4 (quick) / <=5 (thorough) pieces as the type
